@@ -114,7 +114,7 @@ PROPS["C07"] = dict(
 
 PROPS["C09"] = dict(
     pkg="./props/c09_hedge",
-    tests=[REGRESS(), T("TestHedge", (8, 1200), (16, 20000))],
+    tests=[REGRESS(), T("TestHedge", (8, 1200), (16, 20000)), T("TestHedgeRounds", (4, 400), (8, 6000))],
     replay_reps=300,
     require_classes=["final-path=true", "overlapped=true"],
     rule="rapid-generated hedged executions: maxHedges 0..4, a generated delay per hedge from {0, 0.2, 1, 3, 5 ms, 1 h}, cancel conditions {default, CancelOnResult, CancelOnErrors, CancelIf}, an outcome per attempt (assigned by order of entry), placements {alone, inside retry, inside a never-firing timeout, inside a fallback}, sync/async; gated mode: every attempt parks on a harness channel and is released in a generated permutation (exact step oracle); auto mode: attempts last a generated 0..8 ms or until cancelled and race with the hedge timers (race-agnostic log oracle); non-trivial = at least 2 attempts overlapped and (the winner was not the first attempt or the all-finished path delivered the result); distinct = the scenario",
